@@ -28,6 +28,14 @@ for pid in sorted(os.listdir(rdir)):
         if os.path.isfile(os.path.join(src, "needs.txt")):
             needs = open(os.path.join(src, "needs.txt")).read().strip()
         meta = dict(breaks=pid, round=rnd, origin=origin, needs_to_manifest=needs)
+        bt = os.path.join(src, "breaks.txt")
+        if pid.startswith("X") and os.path.isfile(bt):
+            lines = [l.strip() for l in open(bt).read().splitlines()]
+            ids = re.findall(r"C\d\d", lines[0]) if lines else []
+            if ids:
+                meta["breaks"] = ids[0]
+                also = ids[1:] + (re.findall(r"C\d\d", lines[1]) if len(lines) > 1 else [])
+                meta["also_breaks"] = [a for i, a in enumerate(also) if a != ids[0] and a not in also[:i]]
         with open(os.path.join(dst, "meta.json"), "w") as f:
             json.dump(meta, f, indent=1)
         open(os.path.join(src, ".collected"), "w").write(dst)
